@@ -33,6 +33,7 @@ type sent struct {
 	r    *pb.SubscribeResponse // clone taken when Send was called
 	step int                   // scenario step during which it passed
 	at   int64                 // virtual time (ns) when it passed
+	call int                   // scenario step during which Send was called (the server's checks come before the call)
 }
 
 // memStream is an in-memory pb.GNMI_SubscribeServer. Send passes only when the
@@ -84,6 +85,7 @@ func (s *memStream) Send(r *pb.SubscribeResponse) error {
 	s.sendCalls++
 	s.inSend = true
 	s.sendStart = s.now()
+	callStep := s.curStep()
 	s.mu.Unlock()
 	select {
 	case <-s.tokens:
@@ -96,7 +98,7 @@ func (s *memStream) Send(r *pb.SubscribeResponse) error {
 	}
 	s.mu.Lock()
 	s.inSend = false
-	s.out = append(s.out, sent{c, s.curStep(), s.now()})
+	s.out = append(s.out, sent{c, s.curStep(), s.now(), callStep})
 	s.mu.Unlock()
 	return nil
 }
